@@ -247,10 +247,12 @@ class LocalShare:
         return path, sharedHash
 
     def installSharedPackage(self, workspace, buildId, sharedHash, mayMove):
-        # Quick check: was somebody faster?
+        # Quick check: was somebody faster? Then we are just another user of
+        # the package. Install on our own if it vanished in the meantime.
         sharedPath = self.__buildPath(buildId)
         if os.path.isdir(sharedPath):
-            return sharedPath, False
+            if self.useSharedPackage(workspace, buildId)[0] is not None:
+                return sharedPath, False
 
         # Prepare everyting in temporary directory next to the shared packages
         # to atomically "install" the whole package with a single move. Can
@@ -297,6 +299,7 @@ class LocalShare:
                     os.rename(tmpSharedPath, sharedPath)
                 except OSError as e:
                     if e.errno in (errno.ENOTEMPTY, errno.EEXIST):
+                        self.useSharedPackage(workspace, buildId)
                         return sharedPath, False
                     raise
 
